@@ -250,7 +250,10 @@ fn one_project(dir: &str) -> Value {
             ),
         };
         let w = Warnings::new();
-        match catch_unwind(AssertUnwindSafe(|| copy.merge_plurals(&w))) {
+        let r = catch_unwind(AssertUnwindSafe(|| copy.merge_plurals(&w)));
+        // the warnings (UnusedForm) of the whole-project merging, for every locale
+        let ws: Vec<Value> = w.into_inner().iter().map(warning_json).collect();
+        match r {
             Err(_) => json!("PANIC"),
             Ok(Err(e)) => json!({"err": err_json(&e)}),
             Ok(Ok(())) => {
@@ -258,7 +261,7 @@ fn one_project(dir: &str) -> Value {
                     .into_iter()
                     .map(|(ns, l)| json!({"name": &*l.name.name, "ns": ns.as_ref().map(|k| k.name.to_string()), "keys": keys_tree(l)}))
                     .collect();
-                json!({"ok": ls})
+                json!({"ok": ls, "warnings": ws})
             }
         }
     };
